@@ -844,10 +844,14 @@ impl EncodingVersion for EncodingVersion1 {
         let pid = member_id as u16 + (m_flag << 14);
         serializer.serialize_primitive_type(&pid);
         let ssize = Ssize::new(serializer);
+        // PUSH( ORIGIN=0 ) is in effect for the member value only: what comes after the member
+        // is aligned relative to the previous origin again
+        let value_position = ssize.serializer.writer.position;
         ssize.serializer.push_origin_0();
         if v.get_value(member_id).is_ok() {
             ssize.serializer.serialize_value(v, member_id)?;
         }
+        ssize.serializer.writer.position += value_position;
         ssize.write_ssize();
         Ok(())
     }
